@@ -22,10 +22,55 @@ static A: CountingAlloc = CountingAlloc;
 // ------------------------------------------------------------------------------------------
 // the dynamic term builder's node type
 
-pub struct Dyn<'a, F: Frame>(Box<dyn Signal<Frame = F> + 'a>);
+/// Every node of a term is boxed behind `Dyn`.  `Dyn` is `Clone` so that the REAL `Clone` impls of
+/// the adaptor structs (`#[derive(Clone)]` on `AddAmp<Dyn, Dyn>`, `Delay<Dyn>`, `Take<Dyn>`, the
+/// hand-written one of `IntoInterleavedSamples<Dyn>`, ...) can be exercised: cloning a `Dyn` clones
+/// the concrete struct inside it.  The only nodes that cannot be cloned are `by_ref` leaves (`&mut S`
+/// is not `Clone`); cloning a term that contains one panics (the generators never ask for it).
+pub struct Dyn<'a, F: Frame>(Box<dyn DynSig<'a, F> + 'a>);
+trait DynSig<'a, F: Frame>: Signal<Frame = F> {
+    fn dup(&self) -> Dyn<'a, F>;
+}
+struct Cl<S>(S);
+struct NoCl<S>(S);
+macro_rules! delegate_signal {
+    ($W:ident) => {
+        impl<S: Signal> Signal for $W<S> {
+            type Frame = S::Frame;
+            #[inline]
+            fn next(&mut self) -> S::Frame {
+                self.0.next()
+            }
+            #[inline]
+            fn is_exhausted(&self) -> bool {
+                self.0.is_exhausted()
+            }
+        }
+    };
+}
+delegate_signal!(Cl);
+delegate_signal!(NoCl);
+impl<'a, F: Frame, S: Signal<Frame = F> + Clone + 'a> DynSig<'a, F> for Cl<S> {
+    fn dup(&self) -> Dyn<'a, F> {
+        Dyn(Box::new(Cl(self.0.clone())))
+    }
+}
+impl<'a, F: Frame, S: Signal<Frame = F> + 'a> DynSig<'a, F> for NoCl<S> {
+    fn dup(&self) -> Dyn<'a, F> {
+        panic!("a term with a borrowed (by_ref) leaf cannot be cloned")
+    }
+}
 impl<'a, F: Frame> Dyn<'a, F> {
-    fn new<S: Signal<Frame = F> + 'a>(s: S) -> Self {
-        Dyn(Box::new(s))
+    fn new<S: Signal<Frame = F> + Clone + 'a>(s: S) -> Self {
+        Dyn(Box::new(Cl(s)))
+    }
+    fn new_noclone<S: Signal<Frame = F> + 'a>(s: S) -> Self {
+        Dyn(Box::new(NoCl(s)))
+    }
+}
+impl<'a, F: Frame> Clone for Dyn<'a, F> {
+    fn clone(&self) -> Self {
+        self.0.dup()
     }
 }
 impl<'a, F: Frame> Signal for Dyn<'a, F> {
@@ -46,6 +91,8 @@ impl<'a, F: Frame> Signal for Dyn<'a, F> {
 /// The source iterator is deliberately NOT fused: once its data has run out it returns `None` exactly
 /// once, and if it is polled again after that it yields "ghost" items (its last item, repeated).  A
 /// signal that really ends when its iterator first ends never sees them.
+/// A clone shares the call counter (`Rc`): the pulls of a cloned term are counted as well.
+#[derive(Clone)]
 struct CountIter<T> {
     data: Vec<T>,
     pos: usize,
@@ -68,6 +115,7 @@ impl<T: Copy> Iterator for CountIter<T> {
         self.data.last().copied()
     }
 }
+#[derive(Clone)]
 struct Counted<S> {
     inner: S,
     calls: Rc<Cell<u32>>,
@@ -119,6 +167,32 @@ macro_rules! smp_int {
 smp_int!(i8, "i8");
 smp_int!(u8, "u8");
 smp_int!(i16, "i16");
+/// 32 / 64-bit integer samples do not fit TLC's integers: {"n":0|1,"l":[15-bit limbs]} (hx_common::big)
+macro_rules! smp_wide {
+    ($T:ty, $name:literal) => {
+        impl Smp for $T {
+            const FMT: &'static str = $name;
+            fn from_json(v: &Value) -> Self {
+                unbig(v) as $T
+            }
+            fn to_json(self) -> Value {
+                big(self as i128)
+            }
+            fn to_raw(self) -> u64 {
+                self as i64 as u64
+            }
+            fn raw_json(r: u64) -> Value {
+                big((r as $T) as i128)
+            }
+            fn inv(self) -> Self {
+                !self
+            }
+        }
+    };
+}
+smp_wide!(i32, "i32");
+smp_wide!(u32, "u32");
+smp_wide!(i64, "i64");
 impl Smp for f32 {
     const FMT: &'static str = "f32";
     fn from_json(v: &Value) -> Self {
@@ -235,7 +309,8 @@ macro_rules! sort_impl {
 }
 // mono = the bare sample type (impl_frame_for_sample), wider = arrays
 sort_impl!(i8, [i8; 2], [i8; 3], [i8; 4], u8, [u8; 2], [u8; 3], [u8; 4], i16, [i16; 2], [i16; 3], [i16; 4],
-           f32, [f32; 2], [f32; 3], [f32; 4], f64, [f64; 2], [f64; 3], [f64; 4]);
+           f32, [f32; 2], [f32; 3], [f32; 4], f64, [f64; 2], [f64; 3], [f64; 4],
+           i32, [i32; 2], [i32; 3], [i32; 4], u32, [u32; 2], [u32; 3], [u32; 4], i64, [i64; 2], [i64; 3], [i64; 4]);
 
 macro_rules! with_sort {
     ($fmt:expr, $ch:expr, $F:ident => $body:expr) => {
@@ -260,6 +335,18 @@ macro_rules! with_sort {
             ("f64", 2) => { type $F = [f64; 2]; $body }
             ("f64", 3) => { type $F = [f64; 3]; $body }
             ("f64", 4) => { type $F = [f64; 4]; $body }
+            ("i32", 1) => { type $F = i32; $body }
+            ("i32", 2) => { type $F = [i32; 2]; $body }
+            ("i32", 3) => { type $F = [i32; 3]; $body }
+            ("i32", 4) => { type $F = [i32; 4]; $body }
+            ("u32", 1) => { type $F = u32; $body }
+            ("u32", 2) => { type $F = [u32; 2]; $body }
+            ("u32", 3) => { type $F = [u32; 3]; $body }
+            ("u32", 4) => { type $F = [u32; 4]; $body }
+            ("i64", 1) => { type $F = i64; $body }
+            ("i64", 2) => { type $F = [i64; 2]; $body }
+            ("i64", 3) => { type $F = [i64; 3]; $body }
+            ("i64", 4) => { type $F = [i64; 4]; $body }
             (f, c) => panic!("unsupported sort {} x {}", f, c),
         }
     };
@@ -284,7 +371,7 @@ fn src_index(t: &Value) -> usize {
     (t["j"].as_u64().expect("source index") as usize).checked_sub(1).expect("1-based source index")
 }
 
-fn mk_source<F: Sort>(spec: &Value, pulls: Rc<Cell<u32>>, iters: Rc<Cell<u32>>) -> Dyn<'static, F> {
+fn mk_source<'a, F: Sort>(spec: &Value, pulls: Rc<Cell<u32>>, iters: Rc<Cell<u32>>) -> Dyn<'a, F> {
     assert_eq!(spec["fmt"].as_str().unwrap(), F::FMT, "source used at a different sample format");
     let xs = spec["xs"].as_array().expect("xs");
     if spec["kind"] == "samples" {
@@ -308,7 +395,7 @@ fn build<'a, F: Sort>(t: &Value, path: &str, cx: &mut Cx<'a>) -> Dyn<'a, F> {
             assert_eq!(cx.srcs[j]["kind"] == "samples", k == "srcs", "leaf kind vs source kind");
             if cx.lifted.as_ref().map_or(false, |l| l.0 == j) {
                 let b = cx.lifted.take().unwrap().1;
-                *b.downcast::<Dyn<'static, F>>().ok().expect("lifted source sort")
+                Dyn::new(*b.downcast::<Dyn<'static, F>>().ok().expect("lifted source sort"))
             } else {
                 mk_source::<F>(&cx.srcs[j], cx.pulls[j].clone(), cx.iters[j].clone())
             }
@@ -317,7 +404,7 @@ fn build<'a, F: Sort>(t: &Value, path: &str, cx: &mut Cx<'a>) -> Dyn<'a, F> {
             let j = src_index(t);
             let slot: &'a mut Box<dyn Any> = cx.byref[j].take().expect("by_ref source used twice");
             let d: &'a mut Dyn<'static, F> = slot.downcast_mut::<Dyn<'static, F>>().expect("by_ref source sort");
-            Dyn::new(Signal::by_ref(d))
+            Dyn::new_noclone(Signal::by_ref(d))
         }
         "eq" => Dyn::new(signal::equilibrium::<F>()),
         "gen" => {
@@ -426,6 +513,7 @@ struct Collected {
     hint: [u64; 3],
     ok: bool,
     h: [i64; 3],
+    clone: Option<Value>, // the extra observations of a `*_clone` consumer (merged into `o`)
 }
 fn collected<T>(res: Option<(bool, [bool; 2])>, items: Vec<T>, hint: [u64; 3], h: [i64; 3], enc: impl Fn(T) -> Value) -> Collected {
     match res {
@@ -436,8 +524,9 @@ fn collected<T>(res: Option<(bool, [bool; 2])>, items: Vec<T>, hint: [u64; 3], h
             hint,
             ok: true,
             h,
+            clone: None,
         },
-        None => Collected { r: r_panic(), after: [false, false], capped: false, hint, ok: false, h },
+        None => Collected { r: r_panic(), after: [false, false], capped: false, hint, ok: false, h, clone: None },
     }
 }
 
@@ -446,8 +535,7 @@ fn consume<F: Sort, S: Signal<Frame = F>>(s: S, consumer: &str, n: usize, cap: u
     match consumer {
         "take" => {
             let mut it = s.take(n);
-            let (lo, hi) = it.size_hint();
-            let hint = [lo as u64, hi.map_or(u64::MAX >> 34, |x| x as u64), ExactSizeIterator::len(&it) as u64];
+            let hint = take_hint(&it);
             let mut items: Vec<F> = Vec::with_capacity(cap + 4);
             let (res, h, _) = measured(|| catch(|| drain(&mut it, cap, &mut items)));
             collected(res, items, hint, h, F::f_to_json)
@@ -463,6 +551,98 @@ fn consume<F: Sort, S: Signal<Frame = F>>(s: S, consumer: &str, n: usize, cap: u
             let mut items: Vec<F::Sample> = Vec::with_capacity(cap + 4);
             let (res, h, _) = measured(|| catch(|| drain(&mut it, cap, &mut items)));
             collected(res, items, [0, 0, 0], h, F::s_to_json)
+        }
+        c => panic!("unknown consumer {}", c),
+    }
+}
+fn take_hint<S: Signal>(it: &signal::Take<S>) -> [u64; 3] {
+    let (lo, hi) = it.size_hint();
+    [lo as u64, hi.map_or(u64::MAX >> 34, |x| x as u64), ExactSizeIterator::len(it) as u64]
+}
+
+/// The `*_clone` consumers: pull `k` items from the consumer's iterator, CLONE the iterator where it
+/// stands (the real `Clone` impl of Take / UntilExhausted / IntoInterleavedSamplesIterator and of
+/// every adaptor struct below it), drain the clone to its end (+2 calls), then drain the original
+/// (+2 calls).  Logged: `r` = the k items followed by everything the clone yielded; `o.head` = items
+/// pulled before the clone was taken (< k when the iterator ended first), `o.tail` = what the
+/// original yielded afterwards, `o.after` / `o.after2` = the two further calls on the clone / the
+/// original, `o.chint` = size hint and len of the clone (take only).  The clone itself allocates (the
+/// boxes of the term builder) and is taken outside the measured windows.
+fn drain_clone<T, I: Iterator<Item = T> + Clone>(
+    it: &mut I,
+    k: usize,
+    cap: usize,
+    hint: [u64; 3],
+    hint_of: impl Fn(&I) -> [u64; 3],
+    enc: impl Fn(T) -> Value + Copy,
+) -> Collected {
+    let mut items: Vec<T> = Vec::with_capacity(2 * cap + 8);
+    let mut tail: Vec<T> = Vec::with_capacity(cap + 4);
+    let mut h = [0i64; 3];
+    let failed = |h: [i64; 3]| Collected { r: r_panic(), after: [false, false], capped: false, hint, ok: false, h, clone: Some(json!({"head": 0, "tail": [], "after2": [false, false], "chint": [0, 0, 0]})) };
+    let (r1, h1, _) = measured(|| {
+        catch(|| {
+            let mut c = 0usize;
+            while c < k {
+                match it.next() {
+                    Some(x) => {
+                        items.push(x);
+                        c += 1;
+                    }
+                    None => break,
+                }
+            }
+            c
+        })
+    });
+    for i in 0..3 {
+        h[i] += h1[i];
+    }
+    let head = match r1 {
+        Some(c) => c,
+        None => return failed(h),
+    };
+    let mut cl = match catch(|| it.clone()) {
+        Some(c) => c,
+        None => return failed(h),
+    };
+    let chint = hint_of(&cl);
+    let (r2, h2, _) = measured(|| catch(|| drain(&mut cl, cap, &mut items)));
+    let (r3, h3, _) = measured(|| catch(|| drain(it, cap, &mut tail)));
+    for i in 0..3 {
+        h[i] += h2[i] + h3[i];
+    }
+    match (r2, r3) {
+        (Some((capped, after)), Some((capped2, after2))) => Collected {
+            r: r_items(Value::Array(items.into_iter().map(enc).collect())),
+            after,
+            capped: capped || capped2,
+            hint,
+            ok: true,
+            h,
+            clone: Some(json!({"head": head, "tail": Value::Array(tail.into_iter().map(enc).collect()),
+                               "after2": [after2[0], after2[1]], "chint": chint})),
+        },
+        _ => failed(h),
+    }
+}
+fn consume_clone<F: Sort, S: Signal<Frame = F> + Clone>(s: S, consumer: &str, n: usize, k: usize, cap: usize) -> Collected
+where
+    F::Channels: Clone,
+{
+    match consumer {
+        "take_clone" => {
+            let mut it = s.take(n);
+            let hint = take_hint(&it);
+            drain_clone(&mut it, k, cap, hint, take_hint, F::f_to_json)
+        }
+        "ue_clone" => {
+            let mut it = s.until_exhausted();
+            drain_clone(&mut it, k, cap, [0, 0, 0], |_| [0, 0, 0], F::f_to_json)
+        }
+        "il_clone" => {
+            let mut it = s.into_interleaved_samples().into_iter();
+            drain_clone(&mut it, k, cap, [0, 0, 0], |_| [0, 0, 0], F::s_to_json)
         }
         c => panic!("unknown consumer {}", c),
     }
@@ -485,7 +665,10 @@ fn resume_one<S: Sort>(out: &mut Out, a: &Value, b: &mut Box<dyn Any>, pulls: &[
     );
 }
 
-fn run_exec<F: Sort>(out: &mut Out, ex: &[Value]) {
+fn run_exec<F: Sort>(out: &mut Out, ex: &[Value])
+where
+    F::Channels: Clone,
+{
     let cfg = &ex[0]["cfg"];
     let ch = cfg["ch"].as_u64().expect("ch") as usize;
     let srcs: &[Value] = cfg["srcs"].as_array().expect("srcs");
@@ -500,9 +683,12 @@ fn run_exec<F: Sort>(out: &mut Out, ex: &[Value]) {
     let mut owned: Vec<Option<Box<dyn Any>>> = (0..ns).map(|_| None).collect();
     for &j in &ids {
         let fmt = srcs[j]["fmt"].as_str().expect("source fmt");
-        owned[j] = Some(with_sort!(fmt, ch, S => Box::new(mk_source::<S>(&srcs[j], pulls[j].clone(), iters[j].clone())) as Box<dyn Any>));
+        owned[j] = Some(with_sort!(fmt, ch, S => {
+            let d: Dyn<'static, S> = mk_source::<S>(&srcs[j], pulls[j].clone(), iters[j].clone());
+            Box::new(d) as Box<dyn Any>
+        }));
     }
-    let insp: InspLog = Rc::new(RefCell::new(Vec::with_capacity(256)));
+    let insp: InspLog = Rc::new(RefCell::new(Vec::with_capacity(4096)));
     let paths = Rc::new(RefCell::new(Vec::new()));
     // `lift` builds the term inside its closure: defer construction to the collect event
     let lift_first = ops.first().map_or(false, |o| o["ev"] == "collect" && o["a"]["consumer"] == "lift");
@@ -569,6 +755,20 @@ fn run_exec<F: Sort>(out: &mut Out, ex: &[Value]) {
                         h,
                     );
                 }
+                "clone" => {
+                    // the root is replaced by its clone (the original is dropped): it must carry on
+                    // exactly where the original stood
+                    let res = {
+                        let r = root.as_ref().expect("clone of a consumed term");
+                        catch(|| r.clone())
+                    };
+                    let ok = res.is_some();
+                    if let Some(c) = res {
+                        root = Some(c);
+                    }
+                    out.ev("clone", a.clone(), if ok { r_unit() } else { r_panic() },
+                           json!({"ok": ok, "pulls": counts(&pulls), "it": counts(&iters)}), [0, 0, 0]);
+                }
                 "drop" => {
                     root = None;
                     out.ev("drop", a.clone(), r_unit(), json!({"ok": true, "pulls": counts(&pulls), "it": counts(&iters)}), [0, 0, 0]);
@@ -580,6 +780,7 @@ fn run_exec<F: Sort>(out: &mut Out, ex: &[Value]) {
                     let n = a["n"].as_u64().unwrap_or(0) as usize;
                     let cap = a["cap"].as_u64().unwrap_or(64) as usize;
                     let byref = a["byref"].as_bool().unwrap_or(false);
+                    let k = a["k"].as_u64().unwrap_or(0) as usize;
                     insp.borrow_mut().clear();
                     let c = if consumer == "lift" {
                         // lift(iter, |signal| term-with-that-signal).  The closure receives the real
@@ -604,20 +805,23 @@ fn run_exec<F: Sort>(out: &mut Out, ex: &[Value]) {
                             }
                             None => collected::<F>(None, Vec::new(), [0, 0, 0], [0, 0, 0], F::f_to_json),
                         }
+                    } else if consumer.ends_with("_clone") {
+                        // (`&mut S` is not Clone: these consumers always take the root by value)
+                        consume_clone::<F, _>(root.take().expect("collect on a consumed term"), consumer, n, k, cap)
                     } else if byref {
                         consume::<F, _>(Signal::by_ref(root.as_mut().expect("collect on a consumed term")), consumer, n, cap)
                     } else {
                         consume::<F, _>(root.take().expect("collect on a consumed term"), consumer, n, cap)
                     };
                     let seen = insp.borrow().len();
-                    out.ev(
-                        "collect",
-                        a.clone(),
-                        c.r,
-                        json!({"ok": c.ok, "after": [c.after[0], c.after[1]], "capped": c.capped, "hint": c.hint,
-                               "pulls": counts(&pulls), "it": counts(&iters), "insp_calls": seen}),
-                        c.h,
-                    );
+                    let mut o = json!({"ok": c.ok, "after": [c.after[0], c.after[1]], "capped": c.capped, "hint": c.hint,
+                                       "pulls": counts(&pulls), "it": counts(&iters), "insp_calls": seen});
+                    if let Some(Value::Object(extra)) = c.clone {
+                        for (key, v) in extra {
+                            o[key] = v;
+                        }
+                    }
+                    out.ev("collect", a.clone(), c.r, o, c.h);
                     if root.is_none() {
                         i += 1;
                         break;
@@ -660,12 +864,14 @@ fn signed_of(f: &str) -> &'static str {
     match f {
         "u8" | "i8" => "i8",
         "i16" => "i16",
+        "i32" | "u32" => "i32",
+        "i64" => "i64",
         "f32" => "f32",
         _ => "f64",
     }
 }
 fn float_of(f: &str) -> &'static str {
-    if f == "f64" {
+    if f == "f64" || f == "i64" {
         "f64"
     } else {
         "f32"
@@ -675,20 +881,44 @@ fn half(f: &str) -> f64 {
     match f {
         "i8" | "u8" => 128.0,
         "i16" => 32768.0,
+        "i32" | "u32" => 2147483648.0,
+        "i64" => 9223372036854775808.0,
         _ => 1.0,
+    }
+}
+fn half_i(f: &str) -> i128 {
+    match f {
+        "i8" | "u8" => 1 << 7,
+        "i16" => 1 << 15,
+        "i32" | "u32" => 1 << 31,
+        "i64" => 1 << 63,
+        _ => panic!("half_i of a float format"),
     }
 }
 fn is_float(f: &str) -> bool {
     f == "f32" || f == "f64"
 }
+/// 32 / 64-bit integer formats: samples are logged as limbs, values come with all their bits random
+fn is_wide(f: &str) -> bool {
+    f == "i32" || f == "u32" || f == "i64"
+}
+/// Encode the integer sample whose signed amplitude (distance from equilibrium) is `a`.
+fn enc_amp_i(f: &str, a: i128) -> Value {
+    let h = half_i(f);
+    let a = a.clamp(-h, h - 1);
+    match f {
+        "u8" => json!((h + a) as i64),
+        "i8" | "i16" => json!(a as i64),
+        "u32" => big(h + a),
+        _ => big(a),
+    }
+}
 /// Encode the value "amplitude x (fraction of full scale)" in format f.
 fn enc(f: &str, x: f64) -> Value {
     match f {
-        "i8" => json!((x * 128.0).trunc() as i64),
-        "u8" => json!(128 + (x * 128.0).trunc() as i64),
-        "i16" => json!((x * 32768.0).trunc() as i64),
         "f32" => f32f(x as f32),
-        _ => f64f(x),
+        "f64" => f64f(x),
+        _ => enc_amp_i(f, (x * half(f)).trunc() as i128),
     }
 }
 impl Gen {
@@ -704,8 +934,21 @@ impl Gen {
         let m = (b * q).floor() as i64;
         self.rng.range(-m, m) as f64 / q
     }
+    /// a random sample of format f with |amplitude| <= b (`abs`: amplitude >= 0).  Wide integer
+    /// formats mostly get every bit random: values that need more significant bits than the mantissa
+    /// of the format's float companion (24 for i32 / u32, 53 for i64).
+    fn val(&mut self, f: &str, b: f64, abs: bool) -> Value {
+        if is_wide(f) && !self.rng.chance(1, 6) {
+            let m = ((b.max(0.0) * half(f)).floor() as i128).min(half_i(f) - 1);
+            let r = (((self.rng.next() as u128) << 64) | self.rng.next() as u128) % (2 * m + 1) as u128;
+            let a = r as i128 - m;
+            return enc_amp_i(f, if abs { a.abs() } else { a });
+        }
+        let x = self.amp(f, b);
+        enc(f, if abs { x.abs() } else { x })
+    }
     fn frame(&mut self, f: &str, b: f64) -> Value {
-        Value::Array((0..self.ch).map(|_| { let x = self.amp(f, b); enc(f, x) }).collect())
+        Value::Array((0..self.ch).map(|_| self.val(f, b, false)).collect())
     }
     fn new_source(&mut self, f: &str, b: f64, samples: bool) -> usize {
         let len = match self.rng.below(10) {
@@ -715,7 +958,7 @@ impl Gen {
         } as usize;
         let xs: Vec<Value> = if samples {
             let extra = self.rng.below(self.ch as u64) as usize;
-            (0..len * self.ch + extra).map(|_| { let x = self.amp(f, b); enc(f, x) }).collect()
+            (0..len * self.ch + extra).map(|_| self.val(f, b, false)).collect()
         } else {
             (0..len).map(|_| self.frame(f, b)).collect()
         };
@@ -774,8 +1017,8 @@ impl Gen {
                 json!({"k": "scale", "g": enc(ff, g), "a": self.term(f, d - 1, b / g.abs().max(1.0))})
             }
             9 => {
-                let o = self.amp(sf, 0.25 * b);
-                json!({"k": "offset", "o": enc(sf, o), "a": self.term(f, d - 1, 0.75 * b - eps)})
+                let o = self.val(sf, 0.25 * b, false);
+                json!({"k": "offset", "o": o, "a": self.term(f, d - 1, 0.75 * b - eps)})
             }
             10 => {
                 let gs: Vec<f64> = (0..self.ch).map(|_| self.rng.range(-12, 12) as f64 / 8.0).collect();
@@ -783,12 +1026,12 @@ impl Gen {
                 json!({"k": "scalepc", "gs": gs.iter().map(|g| enc(ff, *g)).collect::<Vec<_>>(), "a": self.term(f, d - 1, b / m)})
             }
             11 => {
-                let os: Vec<Value> = (0..self.ch).map(|_| { let o = self.amp(sf, 0.25 * b); enc(sf, o) }).collect();
+                let os: Vec<Value> = (0..self.ch).map(|_| self.val(sf, 0.25 * b, false)).collect();
                 json!({"k": "offsetpc", "os": os, "a": self.term(f, d - 1, 0.75 * b - eps)})
             }
             12 => {
-                let th = self.amp(sf, b).abs();
-                json!({"k": "clip", "th": enc(sf, th), "a": self.term(f, d - 1, b)})
+                let th = self.val(sf, b, true);
+                json!({"k": "clip", "th": th, "a": self.term(f, d - 1, b)})
             }
             13 => json!({"k": "inspect", "a": self.term(f, d - 1, b)}),
             _ => json!({"k": "delay", "n": self.rng.below(8), "a": self.term(f, d - 1, b)}),
@@ -839,12 +1082,13 @@ fn lift_candidates(t: &Value, f: &str, root: &str, srcs: &[Value], out: &mut Vec
 }
 
 fn gen(seed: u64, size: &str, path: &str) {
-    let n_exec = if size == "thorough" { 4000 } else { 250 };
+    let n_exec = if size == "thorough" { 4000 } else { 300 };
     let mut g = Gen { rng: Rng::new(seed), ch: 1, srcs: Vec::new(), lens: Vec::new(), max_len: 40 };
     let mut execs = Vec::new();
     let x0 = json!({"x": 0});
     for e in 0..n_exec {
-        let fmt = ["i16", "u8", "f64"][e % 3];
+        // every fourth execution has a wide integer root (i32, i64, u32 in turn)
+        let fmt = if e % 4 == 3 { ["i32", "i64", "u32"][(e / 4) % 3] } else { ["i16", "u8", "f64"][(e - e / 4) % 3] };
         g.ch = 1 + g.rng.below(4) as usize;
         g.srcs.clear();
         g.lens.clear();
@@ -856,7 +1100,8 @@ fn gen(seed: u64, size: &str, path: &str) {
         let mut ex = vec![json!({"ev": "reset", "comp": "signal",
                                  "cfg": {"ch": g.ch, "fmt": fmt, "srcs": g.srcs.clone(), "term": term.clone()}})];
         let horizon = len.map_or(6, |l| l + 3).min(60);
-        let mut resumes = |g: &mut Gen, ex: &mut Vec<Value>| {
+        let clonable = ids.is_empty(); // `&mut S` is not Clone
+        let resumes = |g: &mut Gen, ex: &mut Vec<Value>| {
             for &j in &ids {
                 for _ in 0..(1 + g.rng.below(4)) {
                     ex.push(json!({"ev": "resume", "a": {"src": j + 1}}));
@@ -869,6 +1114,9 @@ fn gen(seed: u64, size: &str, path: &str) {
                 for _ in 0..horizon {
                     if g.rng.chance(1, 4) {
                         ex.push(json!({"ev": "is_exhausted", "a": x0}));
+                    }
+                    if clonable && g.rng.chance(1, 6) {
+                        ex.push(json!({"ev": "clone", "a": x0}));
                     }
                     ex.push(json!({"ev": "next", "a": x0}));
                 }
@@ -894,8 +1142,17 @@ fn gen(seed: u64, size: &str, path: &str) {
                         kinds.push("lift");
                     }
                 }
+                if clonable {
+                    kinds.push("take_clone");
+                    if len.is_some() {
+                        kinds.push("ue_clone");
+                        kinds.push("il_clone");
+                        kinds.push("il_clone");
+                    }
+                }
                 let c = *g.rng.pick(&kinds);
-                let byref = c != "lift" && g.rng.chance(1, 3);
+                let cloning = c.ends_with("_clone");
+                let byref = c != "lift" && !cloning && g.rng.chance(1, 3);
                 if c != "lift" {
                     for _ in 0..n0 {
                         ex.push(json!({"ev": "next", "a": x0}));
@@ -903,7 +1160,15 @@ fn gen(seed: u64, size: &str, path: &str) {
                 }
                 let n = g.rng.below(horizon as u64 + 2);
                 let j = if c == "lift" { *g.rng.pick(&cands) } else { 0 };
-                ex.push(json!({"ev": "collect", "a": {"consumer": c, "n": n, "cap": 400, "byref": byref, "j": j}}));
+                // where the clone is taken: anywhere in the stream (for interleaved samples mostly inside a frame)
+                let total = match c {
+                    "take_clone" => n,
+                    "ue_clone" => len.unwrap_or(0) as u64,
+                    "il_clone" => (len.unwrap_or(0) * g.ch) as u64,
+                    _ => 0,
+                };
+                let k = if cloning { g.rng.below(total + 2) } else { 0 };
+                ex.push(json!({"ev": "collect", "a": {"consumer": c, "n": n, "k": k, "cap": 400, "byref": byref, "j": j}}));
                 if byref {
                     for _ in 0..(1 + g.rng.below(3)) {
                         ex.push(json!({"ev": "next", "a": x0}));
@@ -917,26 +1182,37 @@ fn gen(seed: u64, size: &str, path: &str) {
         execs.push(ex);
     }
     gen_extremes(&mut g, size == "thorough", &mut execs);
+    gen_clones(size == "thorough", &mut execs);
     write_stimuli(path, &execs);
 }
 
 /// Sources holding the extreme samples of the format (most negative, most positive, equilibrium and
 /// its neighbours) through every adaptor whose result stays representable on them: the boundary of
-/// "every content of the source signals".
+/// "every content of the source signals".  The wide integer formats also get values next to the
+/// extremes and values with alternating bit patterns (no float type holds them exactly).
 fn gen_extremes(g: &mut Gen, thorough: bool, execs: &mut Vec<Vec<Value>>) {
     let x0 = json!({"x": 0});
-    for &fmt in &["i16", "u8", "f64"] {
-        let h = half(fmt).max(64.0);
+    for &fmt in &["i16", "u8", "f64", "i32", "i64", "u32"] {
+        let wide = is_wide(fmt);
         let sf = signed_of(fmt);
         let ff = float_of(fmt);
         let hs = half(sf).max(64.0);
+        // samples: MIN, MAX, 0, +-1 LSB, and mid values; rotated over the channels
+        let vals: Vec<Value> = if is_float(fmt) {
+            [-1.0, 1.0 - 1.0 / 64.0, 0.0, 1.0 / 64.0, -1.0 / 64.0, -0.5, 0.25].iter().map(|x| enc(fmt, *x)).collect()
+        } else {
+            let h = half_i(fmt);
+            let mut a = vec![-h, h - 1, 0, 1, -1, -h / 2, h / 4];
+            if wide {
+                a.extend([h - 2, -h + 1, h / 3, -(h / 5) - 1, (h / 7) | 1]);
+            }
+            a.iter().map(|x| enc_amp_i(fmt, *x)).collect()
+        };
         for ch in 1..=(if thorough { 3 } else { 2 }) {
             g.ch = ch;
-            // amplitudes: MIN, MAX, 0, +-1 LSB, and a mid value; rotated over the channels
-            let amps = [-1.0, 1.0 - 1.0 / h, 0.0, 1.0 / h, -1.0 / h, -0.5, 0.25];
             let mk_src = |rot: usize| -> Value {
-                let xs: Vec<Value> = (0..amps.len())
-                    .map(|i| Value::Array((0..ch).map(|c| enc(fmt, amps[(i + c * rot) % amps.len()])).collect()))
+                let xs: Vec<Value> = (0..vals.len())
+                    .map(|i| Value::Array((0..ch).map(|c| vals[(i + c * rot) % vals.len()].clone()).collect()))
                     .collect();
                 json!({"fmt": fmt, "kind": "frames", "xs": xs})
             };
@@ -948,19 +1224,26 @@ fn gen_extremes(g: &mut Gen, thorough: bool, execs: &mut Vec<Vec<Value>>) {
                 json!({"k": "inspect", "a": leaf.clone()}),
                 json!({"k": "delay", "n": 2, "a": leaf.clone()}),
                 json!({"k": "offset", "o": enc(sf, 0.0), "a": leaf.clone()}),
-                json!({"k": "scale", "g": enc(ff, 1.0), "a": leaf.clone()}),
                 json!({"k": "scale", "g": enc(ff, 0.5), "a": leaf.clone()}),
                 json!({"k": "scale", "g": enc(ff, 0.0), "a": leaf.clone()}),
                 json!({"k": "zipmap", "f": "first", "a": leaf.clone(), "b": json!({"k": "src", "j": 2})}),
                 json!({"k": "zipmap", "f": "second", "a": leaf.clone(), "b": json!({"k": "src", "j": 2})}),
                 json!({"k": "zipmap", "f": "interleave", "a": leaf.clone(), "b": json!({"k": "src", "j": 2})}),
+                // adding silence must change nothing, whatever the sample
+                json!({"k": "add", "a": leaf.clone(), "b": json!({"k": "eq"})}),
+                json!({"k": "zipmap", "f": "addamp", "a": leaf.clone(), "b": json!({"k": "eq"})}),
             ];
+            if !wide {
+                // (the largest 32 / 64-bit samples round to 1.0 in their float format: gain 1 would leave
+                // the domain [-1, 1) of the conversion back)
+                terms.push(json!({"k": "scale", "g": enc(ff, 1.0), "a": leaf.clone()}));
+            }
             for th in [0.0, 1.0 / hs, 0.25, 0.5, 1.0 - 1.0 / hs] {
                 terms.push(json!({"k": "clip", "th": enc(sf, th), "a": leaf.clone()}));
             }
             let os: Vec<Value> = (0..ch).map(|_| enc(sf, 0.0)).collect();
             terms.push(json!({"k": "offsetpc", "os": os, "a": leaf.clone()}));
-            let gs: Vec<Value> = (0..ch).map(|c| enc(ff, if c % 2 == 0 { 1.0 } else { 0.5 })).collect();
+            let gs: Vec<Value> = (0..ch).map(|c| enc(ff, if c % 2 == 0 { if wide { 0.25 } else { 1.0 } } else { 0.5 })).collect();
             terms.push(json!({"k": "scalepc", "gs": gs, "a": leaf.clone()}));
             if is_float(fmt) {
                 // float frames may exceed full scale; clipping at or above 1.0 must still clip
@@ -981,10 +1264,69 @@ fn gen_extremes(g: &mut Gen, thorough: bool, execs: &mut Vec<Vec<Value>>) {
                 }
                 let mut ex = vec![json!({"ev": "reset", "comp": "signal",
                                          "cfg": {"ch": ch, "fmt": fmt, "srcs": srcs, "term": term}})];
-                for _ in 0..(amps.len() + 3) {
+                for _ in 0..(vals.len() + 3) {
                     ex.push(json!({"ev": "next", "a": x0}));
                 }
                 ex.push(json!({"ev": "is_exhausted", "a": x0}));
+                execs.push(ex);
+            }
+        }
+    }
+}
+
+/// `Clone` of the consumers and adaptors, taken mid-stream at EVERY position: a clone continues
+/// exactly like the original.  Interleaved samples of 2..4-channel frames cloned after k samples for
+/// every k (inside a frame, on a frame boundary, inside the last frame, after the end); take /
+/// until_exhausted cloned while a delay is still counting down and while a gen_mut closure is
+/// mid-cycle; the signal itself cloned between `next` calls.
+fn gen_clones(thorough: bool, execs: &mut Vec<Vec<Value>>) {
+    let x0 = json!({"x": 0});
+    let fmts: &[&str] = if thorough { &["i16", "f64", "i32", "u8"] } else { &["i16", "f64"] };
+    for &fmt in fmts {
+        let sf = signed_of(fmt);
+        for ch in 1..=(if thorough { 4 } else { 3 }) {
+            let frames = 3usize;
+            let frame = |base: f64| -> Value { Value::Array((0..ch).map(|c| enc(fmt, base + 0.03125 * c as f64)).collect()) };
+            let src = |sign: f64, f: &str| -> Value {
+                let xs: Vec<Value> = (0..frames)
+                    .map(|i| Value::Array((0..ch).map(|c| enc(f, sign * (0.0625 + 0.125 * i as f64 + 0.03125 * c as f64))).collect()))
+                    .collect();
+                json!({"fmt": f, "kind": "frames", "xs": xs})
+            };
+            let srcs = json!([src(1.0, fmt), src(-1.0, sf)]);
+            let s1 = json!({"k": "src", "j": 1});
+            let s2 = json!({"k": "src", "j": 2});
+            let genmut = json!({"k": "genmut", "cs": [frame(0.5), frame(-0.25), frame(0.125)]});
+            let t_delay = json!({"k": "delay", "n": 1, "a": s1.clone()});
+            let t_add = json!({"k": "add", "a": s1.clone(), "b": s2.clone()});
+            let t_mix = json!({"k": "zipmap", "f": "interleave", "a": json!({"k": "delay", "n": 2, "a": s1.clone()}),
+                               "b": json!({"k": "inspect", "a": genmut.clone()})});
+            let reset = |term: &Value| json!({"ev": "reset", "comp": "signal", "cfg": {"ch": ch, "fmt": fmt, "srcs": srcs.clone(), "term": term.clone()}});
+            let collect = |c: &str, n: usize, k: usize| json!({"ev": "collect", "a": {"consumer": c, "n": n, "k": k, "cap": 64, "byref": false, "j": 0}});
+            // interleaved samples: every clone position
+            for (term, len) in [(&s1, frames), (&t_delay, frames + 1), (&t_add, frames)] {
+                if ch == 1 && !std::ptr::eq(term, &s1) {
+                    continue;
+                }
+                for k in 0..=(len * ch + 1) {
+                    execs.push(vec![reset(term), collect("il_clone", 0, k)]);
+                }
+            }
+            if ch <= 2 {
+                // frames: clone inside the delay's silence, at its end, mid-cycle of the gen_mut closure, at the end
+                for k in 0..=(frames + 3) {
+                    execs.push(vec![reset(&t_mix), collect("ue_clone", 0, k)]);
+                    execs.push(vec![reset(&t_mix), collect("take_clone", frames + 4, k)]);
+                }
+                execs.push(vec![reset(&genmut), collect("take_clone", 5, 2)]);
+                // the signal itself, cloned between calls
+                let mut ex = vec![reset(&t_mix)];
+                for _ in 0..(frames + 4) {
+                    ex.push(json!({"ev": "next", "a": x0}));
+                    ex.push(json!({"ev": "clone", "a": x0}));
+                }
+                ex.push(json!({"ev": "is_exhausted", "a": x0}));
+                ex.push(collect("il_clone", 0, 1));
                 execs.push(ex);
             }
         }
